@@ -159,7 +159,7 @@ impl Prop for C14 {
         "C14"
     }
     fn rule(&self) -> String {
-        "case = ((family, operator) uniform over the 21 operator impls that exist: PolyK{Mul,MulAssign,Neg,Add,Translate}, PolyN{Translate}, Log<PolyK>{Mul,MulAssign,Translate}, IntOfLog<PolyK>{Add,Mul,MulAssign,Neg,Translate}, IntOfLogPoly4{Mul,Neg,Add,&+&,Sub,&-&,Translate}; degree 0..=8 uniform (125 (impl,degree) instances); operands with pairwise distinct finite numbers over the full exponent range (tiny, huge, ±0) or moderate ones; scalar from {0,-0,±1,±2,tiny,huge,random}). Oracle: every number of the result equals the single correctly rounded f64 operation on the corresponding input numbers (identical bits; the sign of a zero result is not pinned); translate changes only the additive constant; empty PolyN becomes [c]; `*=` equals `*`. Value clause for plain polynomials: result.evaluate(x) vs s·f(x), -f(x), f1(x)+f2(x), f(x)+c computed exactly from the inputs within the C01 bound plus one u per coefficient (when all terms are within 2^±900). Non-trivial: >=2 numbers per operand, pairwise distinct across operands (an index slip changes the result).".into()
+        "case = ((family, operator) uniform over the 21 operator impls that exist: PolyK{Mul,MulAssign,Neg,Add,Translate}, PolyN{Translate}, Log<PolyK>{Mul,MulAssign,Translate}, IntOfLog<PolyK>{Add,Mul,MulAssign,Neg,Translate}, IntOfLogPoly4{Mul,Neg,Add,&+&,Sub,&-&,Translate}; degree 0..=8 uniform (125 (impl,degree) instances); operands with pairwise distinct finite numbers over the full exponent range (tiny, huge, ±0) or moderate ones; scalar from {0,-0,±1,±2,1±ulp,tiny,huge,random}; 1 case in 8 has a random subset of the operands' numbers exactly zero; 1 translate case in 8 uses a constant of a quarter ulp to a few ulps of the additive constant). Oracle: every number of the result equals the single correctly rounded f64 operation on the corresponding input numbers (identical bits; the sign of a zero result is not pinned); translate changes only the additive constant; empty PolyN becomes [c]; `*=` equals `*`. Value clause for plain polynomials: result.evaluate(x) vs s·f(x), -f(x), f1(x)+f2(x), f(x)+c computed exactly from the inputs within the C01 bound plus one u per coefficient (when all terms are within 2^±900). Non-trivial: >=2 numbers per operand, pairwise distinct across operands (an index slip changes the result).".into()
     }
     fn cases(&self, tier: Tier) -> u64 {
         tier.pick(1_500_000, 20_000_000)
@@ -167,14 +167,31 @@ impl Prop for C14 {
     fn strategy(&self, _tier: Tier) -> BoxedStrategy<Case> {
         let inst = instances();
         let scalars = prop_oneof![
-            2 => gen::from_table(&[0.0, -0.0, 1.0, -1.0, 2.0, -2.0, 0.5, 3.0, -7.0, 1e-300, -1e300, 5e-324, f64::MAX, 1.5]),
+            2 => gen::from_table(&[0.0, -0.0, 1.0, -1.0, 2.0, -2.0, 0.5, 3.0, -7.0, 1e-300, -1e300, 5e-324, f64::MAX, 1.5, 0.9999999999999999, 1.0000000000000002, -0.9999999999999999, 0.9999999999999998]),
             2 => gen::any_finite(),
             1 => gen::moderate(10),
         ];
         let nums = || prop_oneof![2 => gen::distinct_numbers(20), 1 => vec(gen::moderate(8), 20), 1 => vec(gen::any_finite(), 20)];
-        (0..inst.len(), 0u8..9, 0usize..=12, nums(), scalars, gen::moderate(6))
-            .prop_map(move |(ii, deg, nlen, pool, s, x)| {
+        (0..inst.len(), 0u8..9, 0usize..=12, nums(), scalars, gen::moderate(6), (0u8..8, any::<u32>(), 40i32..=60, 0u32..64))
+            .prop_map(move |(ii, deg, nlen, mut pool, mut s, x, (zmode, zmask, absorb_e, absorb_m))| {
                 let (fam, op) = inst[ii];
+                // structured zeros: operands whose numbers are exactly 0.0 in a random subset of positions
+                // (a "pure offset", a lower-degree function stored in a wider type, ...)
+                if zmode == 0 {
+                    for (i, v) in pool.iter_mut().enumerate() {
+                        if (zmask >> (i % 32)) & 1 == 1 {
+                            *v = 0.0;
+                        }
+                    }
+                }
+                // translate by a constant at the absorption boundary of the additive constant:
+                // |c| between a quarter ulp and a few ulps of it
+                if zmode == 1 && op == TRANSLATE && pool[0] != 0.0 && pool[0].is_finite() {
+                    let t = pool[0].abs() * 2.0f64.powi(-absorb_e) * (1.0 + absorb_m as f64 / 64.0);
+                    if t.is_finite() && t != 0.0 {
+                        s = if absorb_m % 2 == 0 { t } else { -t };
+                    }
+                }
                 let n = match fam {
                     0 | 2 => deg as usize + 1,
                     1 => nlen.min(10),
